@@ -116,6 +116,11 @@ def _format(obj, spec=""):
                 width = int(spec[1:-1])
     if width is not None:
         return int_to_str(obj, width)
+    # Formatting an exception into a message (f"...{ex}") would deep_realize every symbolic value the exception carries
+    # (one sample per path).  Messages are not the subject of any property: render a placeholder instead.
+    with NoTracing():
+        if isinstance(obj, BaseException):
+            return "<" + type(obj).__name__ + ">"
     # remainder = CrossHair's own builtinslib._format, inlined: a call to the builtin must come
     # from *this* code object or the patching tracer re-intercepts it (endless recursion).
     with NoTracing():
@@ -137,8 +142,10 @@ def _int_of_symbolic_str(val):
     """Exact model of int(str) for strings whose code points are all < 128."""
     n = len(val)
     cps = [ord(ch) for ch in val]
-    if any([c >= 128 for c in cps]):
-        return None  # caller falls back
+    if any([all([c >= 128, c != 0xE9, c != 0x663, c != 0x2000]) for c in cps]):
+        return None  # caller falls back (CrossHair's own model realises); drivers bound non-ASCII to the three code points below
+    # exact for the representative non-ASCII code points: U+00E9 (letter: invalid), U+0663 (ARABIC-INDIC DIGIT THREE), U+2000 (space)
+    cps = [3 + 48 if c == 0x663 else (32 if c == 0x2000 else c) for c in cps]
     i, j = 0, n
     while i < j and any([cps[i] == 32, all([cps[i] >= 9, cps[i] <= 13])]):
         i += 1
@@ -208,11 +215,25 @@ def _value_converter(self, value):
     return self.type_converter(type(value))
 
 
+WARNED = []  # categories passed to warnings.warn under CrossHair (see _warn)
+
+
+def _warn(message, category=None, stacklevel=1, source=None, **kw):
+    """Model of warnings.warn: records the category, does not format or realise the (possibly symbolic) message.
+    (The real function hands the message to C code, which realises every symbolic character: one sample per path.)"""
+    if category is None:
+        category = type(message) if isinstance(message, Warning) else UserWarning
+    WARNED.append(category)
+
+
 def install():
     global _INSTALLED, _orig_format, _orig_int, _orig_repr, _orig_str
     if _INSTALLED:
         return
     _INSTALLED = True
+    import warnings
+
+    register_patch(warnings.warn, _warn)
     reg = core._PATCH_REGISTRATIONS
     _orig_format, _orig_int = reg[format], reg[int]
     reg[format] = _format
@@ -226,6 +247,8 @@ def install():
 
 
 MODELS = [
+    "format(exception, ...) -> '<ExceptionType>' placeholder (no realisation of symbolic message parts)",
+    "warnings.warn -> records the category only (no message formatting)",
     "format(int,''|'d'|'0Nd') -> fresh-digit model (chmodels._format)",
     "str(int)/repr(int) -> fresh-digit model (chmodels.int_to_str)",
     "int(ascii str) -> exact CPython model incl. whitespace/sign/underscore (chmodels._int)",
